@@ -45,6 +45,12 @@ pub enum AOp {
     NestedBlockOn(Vec<AOp>),
     /// spawn an OS-style thread that block_on's the given body; joined at the end of the op list
     ThreadBlockOn(usize),
+    /// poll the JoinHandle in the slot once with a throw-away waker (like `now_or_never` on a
+    /// `&mut` handle); a later Await polls it under the task's real waker
+    PollHandleOnce(usize),
+    /// initialise a task-local whose destructor has a scheduling point (k = 1), touches another
+    /// task-local (k = 0) or does nothing (k = 2); destructors run when the task finishes
+    TlsTouch(usize),
 }
 
 #[derive(Clone, Debug, Serialize, Deserialize)]
@@ -297,6 +303,26 @@ fn run_ops(ctx: Arc<Ctx>, body: usize, ops: Vec<AOp>, prefix: String) -> Pin<Box
                     shuttle::future::block_on(run_ops(c2, body, inner, p));
                     "".into()
                 }
+                AOp::PollHandleOnce(s) => match slots.get_mut(*s) {
+                    Some(slot @ Slot::Handle(_)) => {
+                        let r = match slot {
+                            Slot::Handle(h) => Pin::new(h).poll(&mut Context::from_waker(futures::task::noop_waker_ref())),
+                            _ => unreachable!(),
+                        };
+                        match r {
+                            Poll::Pending => "pending".into(),
+                            Poll::Ready(r) => {
+                                *slot = Slot::Consumed;
+                                match r {
+                                    Ok(v) => format!("ok:{}", v),
+                                    Err(_) => "cancelled".into(),
+                                }
+                            }
+                        }
+                    }
+                    _ => "skip".into(),
+                },
+                AOp::TlsTouch(k) => crate::prog::tls_touch(*k).to_string(),
                 AOp::ThreadBlockOn(b) => {
                     let c2 = ctx.clone();
                     let b = *b;
@@ -349,12 +375,24 @@ fn gen_ops(rng: &mut Rng, flags: usize, children: &[usize], thread_children: &[u
             2 if flags > 0 => AOp::FlagWaitBlocking(rng.below(flags)),
             3 | 4 | 5 if flags > 0 => AOp::FlagSet(rng.below(flags)),
             6 if flags > 1 => AOp::Select2(0, 1),
-            7 => AOp::YieldNow,
+            7 => {
+                if rng.chance(1, 3) {
+                    AOp::TlsTouch(rng.below(3))
+                } else {
+                    AOp::YieldNow
+                }
+            }
             8 => AOp::SelfWake,
             9 if depth == 0 && rng.chance(1, 3) => AOp::NestedBlockOn(vec![if flags > 0 && rng.chance(1, 2) { AOp::FlagWait(rng.below(flags), true) } else { AOp::YieldNow }]),
             10 if rng.chance(1, 4) => AOp::PendingForever,
             11 | 12 if !slot_of.is_empty() => AOp::Abort(rng.below(slot_of.len())),
-            13 if !slot_of.is_empty() => AOp::IsFinished(rng.below(slot_of.len())),
+            13 if !slot_of.is_empty() => {
+                if rng.chance(1, 2) {
+                    AOp::IsFinished(rng.below(slot_of.len()))
+                } else {
+                    AOp::PollHandleOnce(rng.below(slot_of.len()))
+                }
+            }
             14 if !slot_of.is_empty() => AOp::DropHandle(rng.below(slot_of.len())),
             15 if !slot_of.is_empty() => AOp::AbortViaHandle(rng.below(slot_of.len())),
             _ => AOp::YieldNow,
@@ -393,7 +431,7 @@ pub fn gen_prog(rng: &mut Rng) -> AProg {
         // interleave: sometimes move spawns later
         if !ops.is_empty() && rng.chance(1, 3) {
             let i = rng.below(ops.len());
-            if !matches!(ops[i], AOp::Spawn(_) | AOp::ThreadBlockOn(_) | AOp::Await(_) | AOp::Abort(_) | AOp::DropHandle(_) | AOp::AbortViaHandle(_) | AOp::IsFinished(_)) {
+            if !matches!(ops[i], AOp::Spawn(_) | AOp::ThreadBlockOn(_) | AOp::Await(_) | AOp::Abort(_) | AOp::DropHandle(_) | AOp::AbortViaHandle(_) | AOp::IsFinished(_) | AOp::PollHandleOnce(_)) {
                 let o = ops.remove(i);
                 ops.insert(0, o);
             }
@@ -471,6 +509,14 @@ fn check_exec(p: &AProg, ex: &ExecTrace, ending: &Ending, out: &mut RunOut, cj: 
                     out.count("abort_issued", 1);
                 }
             }
+            Some(AOp::PollHandleOnce(s)) if e.val == "pending" => {
+                out.count("handle_polled_with_foreign_waker", 1);
+            }
+            Some(AOp::PollHandleOnce(s)) if e.val != "skip" => {
+                if let Some(c) = child_of_slot(*s) {
+                    await_results.entry(c).or_default().push(e.val.clone());
+                }
+            }
             Some(AOp::Await(s)) if e.val != "skip" => {
                 if let Some(c) = child_of_slot(*s) {
                     await_results.entry(c).or_default().push(e.val.clone());
@@ -537,9 +583,10 @@ fn check_exec(p: &AProg, ex: &ExecTrace, ending: &Ending, out: &mut RunOut, cj: 
             }
         }
         if let Some(d) = fd {
-            // a dropped, unfinished future performs no further steps
+            // a dropped, unfinished future performs no further steps (the task's thread-local
+            // destructors, which run after the future is gone, are not steps of the future)
             if let Some(t) = tid_of.get(&c) {
-                if let Some((i, e)) = ex.events.iter().enumerate().find(|(i, e)| *i > d && e.task == *t && e.task != u32::MAX) {
+                if let Some((i, e)) = ex.events.iter().enumerate().find(|(i, e)| *i > d && e.task == *t && e.task != u32::MAX && !["D", "DA", "Y", "T"].contains(&e.kind.as_str())) {
                     v("steps-after-cancellation", format!("body {} logged {:?} at {} after its future was dropped at {}", c, e, i, d));
                 }
             }
@@ -739,6 +786,6 @@ pub fn check() -> Check {
             }
             out
         },
-        probes: &["await_ok", "await_cancelled", "abort_issued", "abort_took_effect_future_dropped", "handle_dropped", "ending_deadlock", "ending_pass", "pending_forever_polls"],
+        probes: &["await_ok", "await_cancelled", "abort_issued", "abort_took_effect_future_dropped", "handle_dropped", "ending_deadlock", "ending_pass", "pending_forever_polls", "handle_polled_with_foreign_waker"],
     }
 }
